@@ -62,10 +62,55 @@ def run_sequential(ctx):
         if not fw.toks_equal(ri[0][1][:len(ref)], rm[0][1][:len(ref)]):
             ctx.signal("K", sig, "model %s vs implementation %s" % (rm[0][1], ri[0][1]), case=c["line"])
 
+def block_cases(ctx, n):
+    """block formats BCOO/BSR/BSC: random block grids (rectangular blocks, empty block rows, duplicate blocks)"""
+    rng = ctx.rng; cases = []
+    for k in range(n):
+        nbr, nbc = rng.randint(1, 4), rng.randint(1, 4); br, bc = rng.randint(1, 3), rng.randint(1, 3)
+        nblk = rng.choice([0, 1, rng.randint(1, nbr * nbc + 2)])
+        blocks = [(rng.randrange(nbr), rng.randrange(nbc), [gen.rand_val(rng) if rng.random() > 0.15 else Fraction(0) for _ in range(br * bc)])
+                  for _ in range(nblk)]
+        fmt = rng.choice(["bcoo", "bsr", "bsc"]); kind = rng.choice(KINDS)
+        T = kind.endswith("_T"); NR, NC = nbr * br, nbc * bc
+        nin, nout = (NR, NC) if T else (NC, NR)
+        x = gen.rand_vec(rng, nin); b = gen.rand_vec(rng, nout)
+        toks = ["b%d" % k, "bspmv", kind, fmt, nbr, nbc, br, bc, nblk]
+        for (I, J, v) in blocks: toks += [I, J] + [nums.tok_num(z) for z in v]
+        toks += [nin] + [nums.tok_num(v) for v in x] + [nout] + [nums.tok_num(v) for v in b]
+        trip = [(I * br + r, J * bc + c, v[r * bc + c]) for (I, J, v) in blocks for r in range(br) for c in range(bc)]
+        A = fw.mat_from_triples("coo", NR, NC, trip)
+        cases.append(dict(cid="b%d" % k, A=A, kind=kind, x=x, b=b, fmt=fmt, line=" ".join(str(z) for z in toks)))
+    return cases
+
+def run_block(ctx):
+    cases = block_cases(ctx, ctx.scale(300, 5000))
+    lines = [c["line"] for c in cases]
+    impl, crashed = fw.run_impl_lines(ctx, "drv_matrix", lines, nprocs=0, name="c02blk")
+    cf = fw.write_cases(ctx, "c02blk.cases", lines)
+    rc, model, _, err = fw.run_model(ctx, cf)
+    for c in cases:
+        ctx.evaluations += 1; ctx.count("block_" + c["fmt"]); ctx.count("kind_" + c["kind"])
+        if c["A"].nnz: ctx.nontrivial.add(c["line"].split(" ", 1)[1])
+        sig = "block:%s:%s" % (c["fmt"], c["kind"])
+        ri, rm = impl.get(c["cid"]), model.get(c["cid"])
+        if not ri or ri[0][0] != "V":
+            ctx.signal("O", sig + ":crash", "implementation failed: %s" % (ri,), case=c["line"]); continue
+        ref = reference(c["kind"], c["A"], c["x"], c["b"])
+        got = [nums.parse_num(t) for t in ri[0][1]]
+        if len(got) < len(ref) or any(not nums.close(g, r) for g, r in zip(got, ref)):
+            ctx.signal("O", sig, "block product differs from the dense reference: got %s, required %s" % (
+                [str(g) for g in got], [str(r) for r in ref]), case=c["line"])
+        if not rm or rm[0][0] != "V":
+            ctx.signal("K", sig + ":model", "model produced no result: %s" % (rm,), case=c["line"]); continue
+        ctx.compared += 1
+        if not fw.toks_equal(ri[0][1][:len(ref)], rm[0][1][:len(ref)]):
+            ctx.signal("K", sig, "model %s vs implementation %s" % (rm[0][1], ri[0][1]), case=c["line"])
+
 def run(ctx):
     ctx.rule = ("sequential: random COO/CSR/CSC matrices (rectangular, empty, duplicates) x 7 kernels x integer vectors; "
                 "distributed: see par_spmv part; non-trivial = matrix has entries; distinct = distinct case text")
     run_sequential(ctx)
+    run_block(ctx)
     try:
         import C02par
     except ImportError:
